@@ -1193,3 +1193,167 @@ Proof.
   all: repeat step_in H.
   all: try (leaf IH H Hk).
 Qed.
+
+(** * 8. one level and its subcommands: [get_matches_with] *)
+Lemma fold_res_err {A B} (f : B -> A -> res A) (l : list B) e st' :
+  forall r, fold_left (fun rst b => do st <- rst; f b st) l r = RErr e st' ->
+  (exists s, r = RErr e s) \/ exists b st, In b l /\ (exists s, f b st = RErr e s).
+Proof.
+  induction l as [|b t IH]; intros r H; cbn [fold_left] in H.
+  - left. exists st'. exact H.
+  - apply IH in H. destruct H as [[s Hs]|[b' [st [Hin Hf]]]].
+    + destruct r as [a|e0 s0|p0]; cbn [rbind] in Hs.
+      * right. exists b, a. split; [left; reflexivity|exists s; exact Hs].
+      * left. exists s0. injection Hs as -> _. reflexivity.
+      * discriminate Hs.
+    + right. exists b', st. split; [right; exact Hin|exact Hf].
+Qed.
+
+Lemma add_env_err c st e st' : add_env c st = RErr e st' -> reaction_error c e.
+Proof.
+  unfold add_env. intros H.
+  apply (fold_res_err (fun a st => if mt_contains (mt st) (a_id a) then ROk st
+                                   else match a_env a with
+                                        | Some v => do x <- react c None SEnv a [v] None st; ROk (fst x)
+                                        | None => ROk st end)) in H.
+  destruct H as [[s Hs]|[a [st0 [_ [s Hf]]]]]; [discriminate Hs|].
+  destruct (mt_contains (mt st0) (a_id a)); [discriminate Hf|]. destruct (a_env a); [|discriminate Hf].
+  destruct (react c None SEnv a [b] None st0) as [x|e1 s1|p1] eqn:Er; cbn [rbind] in Hf; try discriminate Hf.
+  injection Hf as <- _. eapply react_err, Er.
+Qed.
+
+Lemma add_default_value_err c a st e st' : add_default_value c a st = RErr e st' -> reaction_error c e.
+Proof.
+  unfold add_default_value. intros H.
+  repeat match type of H with
+         | (if ?b then _ else _) = _ => destruct b
+         | match ?x with _ => _ end = _ => destruct x eqn:?
+         | rbind ?r _ = _ => let E := fresh "E" in destruct r eqn:E; cbn [rbind] in H
+         end; try discriminate H; injection H as <- _;
+    match goal with E : react _ _ _ _ _ _ _ = RErr _ _ |- _ => eapply react_err, E end.
+Qed.
+
+Lemma add_defaults_err c st e st' : add_defaults c st = RErr e st' -> reaction_error c e.
+Proof.
+  unfold add_defaults. intros H. apply (fold_res_err (fun a st => add_default_value c a st)) in H.
+  destruct H as [[s Hs]|[a [st0 [_ [s Hf]]]]]; [discriminate Hs|]. eapply add_default_value_err, Hf.
+Qed.
+
+Lemma validate_kinds c m k a :
+  validate c m = VErr k a ->
+  In k [EDisplayHelpOnMissing; EMissingSubcommand; EArgumentConflict; EMissingRequiredArgument].
+Proof.
+  unfold validate. destruct (conflicts_with_args c m) as [pot|]; [|discriminate].
+  destruct (negb (is_some (mt_sub m)) && is_set s_arg_required_else_help c && is_nil (explicit_entries m));
+    [intros H; injection H as <- _; cbn; tauto|].
+  destruct (negb (is_some (mt_sub m)) && is_set s_sub_required c); [intros H; injection H as <- _; cbn; tauto|].
+  destruct (validate_conflicts c m pot) as [|k' a'|s] eqn:Ev.
+  - destruct (is_set s_subs_negate_reqs c && is_some (mt_sub m)); [discriminate|].
+    destruct (missing_required c m pot) as [[|y t]|]; try discriminate. intros H; injection H as <- _; cbn; tauto.
+  - intros H; injection H as <- _. apply validate_conflicts_kind in Ev. subst k'. cbn; tauto.
+  - discriminate.
+Qed.
+
+(** the [help] subcommand walk: InvalidSubcommand names a word that is no subcommand of the level reached *)
+Lemma help_walk_sound : forall names sc,
+  let e := help_walk sc names in
+  e_kind e = EDisplayHelp \/
+  (e_kind e = EInvalidSubcommand /\ In (e_arg e) names /\
+   exists sc', find_subcommand sc' (e_arg e) = None \/ (exists s, find_subcommand sc' (e_arg e) = Some s /\ build_subcommand sc' (c_name s) = None)).
+Proof.
+  induction names as [|n rest IH]; intros sc; cbn [help_walk]; [left; reflexivity|].
+  destruct (find_subcommand sc n) as [s|] eqn:Ef.
+  - destruct (build_subcommand sc (c_name s)) as [s'|] eqn:Eb.
+    + destruct (IH s') as [H|[H1 [H2 H3]]]; [left; exact H|right]. split; [exact H1|]. split; [right; exact H2|exact H3].
+    + right. cbn. split; [reflexivity|]. split; [left; reflexivity|]. exists sc. right. exists s. split; assumption.
+  - right. cbn. split; [reflexivity|]. split; [left; reflexivity|]. exists sc. left. exact Ef.
+Qed.
+
+Lemma validate_not_unknown c m st e st' :
+  vres_to_res c (validate c m) st = RErr e st' -> unknown_kind (e_kind e) -> False.
+Proof.
+  destruct (validate c m) as [|k a|s] eqn:Ev; cbn [vres_to_res]; try discriminate. intros H Hk. injection H as <- _.
+  apply validate_kinds in Ev. cbn [e_kind mkerr] in Hk. destruct Hk as [Hk|Hk]; subst k; cbn in Ev;
+    repeat (destruct Ev as [Ev|Ev]; [discriminate Ev|]); exact Ev.
+Qed.
+
+Lemma external_fill_not_unknown c vp st vals e st' : forall r,
+  (forall e0 s0, r <> RErr e0 s0) ->
+  fold_left (fun rm v => do m <- rm;
+                         match vp_parse vp v with
+                         | Some k => RErr (mkerr c k []) st
+                         | None => expect 458 (add_val_to m ext_id v)
+                         end) vals r = RErr e st' ->
+  unknown_kind (e_kind e) -> False.
+Proof.
+  intros r Hr H Hk.
+  apply (fold_res_err (fun v m => match vp_parse vp v with
+                                  | Some k => RErr (mkerr c k []) st
+                                  | None => expect 458 (add_val_to m ext_id v) end)) in H.
+  destruct H as [[s Hs]|[v [m [_ [s Hf]]]]]; [eapply Hr, Hs|].
+  destruct (vp_parse vp v) as [k|] eqn:Ev; [|eapply expect_not_err, Hf].
+  injection Hf as <- _. apply vp_parse_reject_sound in Ev. destruct Ev as [_ [Hin _]].
+  cbn [e_kind mkerr] in Hk. destruct Hk as [Hk|Hk]; subst k; cbn in Hin;
+    repeat (destruct Hin as [Hin|Hin]; [discriminate Hin|]); exact Hin.
+Qed.
+
+(** an "unknown token" error of a whole level (with its subcommand levels) is either the token-loop
+    error of some level -- justified by [parse_loop_unknown_sound] -- or the error of the [help]
+    subcommand walk -- justified by [help_walk_sound] *)
+Theorem get_matches_unknown_sound : forall fuel c toks st0 e st',
+  get_matches_with fuel c toks st0 = RErr e st' -> unknown_kind (e_kind e) ->
+  (exists c' toks' tok, In tok toks' /\ unknown_cause c' tok e) \/ (exists sc names, e = help_walk sc names).
+Proof.
+  induction fuel as [|f IH]; intros c toks st0 e st' H Hk; [discriminate H|].
+  cbn [get_matches_with] in H. cbv zeta in H.
+  match type of H with match ?parsed with _ => _ end = _ => destruct parsed as [stp|ep sp|pp] eqn:Ep end.
+  - (* the loop and the subcommand succeeded: pending / env / defaults / validate *)
+    exfalso. repeat step_in H; try discriminate H.
+    all: try (injection H as <- _).
+    all: try kill_err.
+    all: try (eapply reaction_not_unknown; [|exact Hk]; first [eapply add_env_err; eassumption|eapply add_defaults_err; eassumption]).
+    all: try (eapply validate_not_unknown; eassumption).
+  - assert (He : e = ep).
+    { repeat step_in H; try discriminate H; injection H as <- _; reflexivity. }
+    subst ep. clear H.
+    repeat step_in Ep; try discriminate Ep.
+    all: try (injection Ep as <- _).
+    all: try kill_err.
+    all: try (exfalso; cbn [e_kind mkerr] in Hk; destruct Hk as [Hk|Hk]; discriminate Hk).
+    all: try (left; match goal with E : parse_loop ?c ?toks _ _ = RErr ?e _ |- _ =>
+                       destruct (parse_loop_unknown_sound _ _ _ _ _ _ E Hk) as [t [Ht Hc]];
+                       exists c, toks, t; split; [exact Ht|exact Hc] end).
+    all: try (match goal with E : get_matches_with _ _ _ _ = RErr ?e _ |- _ => eapply IH; [exact E|exact Hk] end).
+    all: try (right; eexists _, _; reflexivity).
+    all: try (exfalso; eapply external_fill_not_unknown; [|eassumption|exact Hk]; discriminate).
+  - discriminate H.
+Qed.
+
+Lemma do_parse_err c0 toks e :
+  do_parse c0 toks = OErr e -> exists fuel c st0 st', get_matches_with fuel c toks st0 = RErr e st'.
+Proof.
+  unfold do_parse. destruct (negb (valid c0)); [discriminate|].
+  destruct (get_matches_with _ (build_self c0) toks ps_new) as [s|e1 s1|p] eqn:Eg.
+  - discriminate.
+  - destruct (is_set s_ignore_errors (build_self c0) && use_stderr (e_kind e1)); [discriminate|].
+    intros H; injection H as <-. eexists _, _, _, _. exact Eg.
+  - destruct p; discriminate.
+Qed.
+
+(** the whole parse: an UnknownArgument / InvalidSubcommand rejection is justified *)
+Theorem parse_top_unknown_sound c0 argv e :
+  parse_top c0 argv = OErr e -> unknown_kind (e_kind e) ->
+  (exists c' toks' tok, In tok toks' /\ unknown_cause c' tok e) \/ (exists sc names, e = help_walk sc names).
+Proof.
+  unfold parse_top. intros H Hk.
+  assert (Hd : exists c1 toks, do_parse c1 toks = OErr e).
+  { destruct (is_set s_no_binary_name c0); [eexists _, _; exact H|].
+    destruct argv as [|bin rest]; eexists _, _; exact H. }
+  destruct Hd as [c1 [toks Hd]]. apply do_parse_err in Hd. destruct Hd as [fuel [c [st0 [st' Hg]]]].
+  eapply get_matches_unknown_sound; eassumption.
+Qed.
+
+Example unknown_example :
+  let c := (cmd_new [112]) <| c_about := Some [65] |> in
+  match parse_top c [[112]; [45; 45; 122]] with OErr e => e_kind e = EUnknownArgument | _ => False end.
+Proof. vm_compute. reflexivity. Qed.
